@@ -235,7 +235,65 @@ def r16_6(ctx):
     ctx.run_rule("R16.6", "loop progress and termination of the tokenizer", body, floor=14)
 
 
+ASCII_ONLY_CHAR_FNS = {"is_ascii_alphabetic", "is_ascii_uppercase", "is_ascii_lowercase", "is_ascii_digit", "is_ascii_alphanumeric", "is_ascii_whitespace",
+                       "is_ascii_punctuation", "is_ascii_hexdigit", "is_ascii", "to_ascii_lowercase", "to_ascii_uppercase", "eq_ignore_ascii_case", "is_ascii_control", "is_ascii_graphic"}
+
+
+def r16_7(ctx):
+    """Span boundaries fall on ASCII bytes only (so that a span never splits a multi-byte UTF-8
+    character): every decision taken on an input byte compares it with ASCII constants or uses an
+    ASCII-only predicate."""
+    F = ctx.facts
+
+    def body(r):
+        n = 0
+        for f in tokenizer_fns(F):
+            pv = Prov(f, copies=True)
+
+            def from_byte(e):
+                return mentions(e, lambda x: x[0] == "call" and x[1] == TOK + "::read_byte") or mentions(e, lambda x: x[0] == "index" and mentions_field(x[1], "reader", TOK))
+            # calls on byte-derived values
+            for bi, t, cal in f.calls():
+                if cal is None or cal.local or not t["args"]:
+                    continue
+                a0 = pv.operand(t["args"][0])
+                if not from_byte(a0):
+                    continue
+                st = (cal.self_ty or "")
+                is_char_fn = "char" in cal.path.split("::")[-2:] or "<impl char>" in cal.path or "char::methods" in cal.path or st in ("char", "&char")
+                is_u8_fn = "<impl u8>" in cal.path or st in ("u8", "&u8")
+                if not (is_char_fn or is_u8_fn):
+                    continue
+                n += 1
+                ok = cal.name in ASCII_ONLY_CHAR_FNS
+                r.ob("ascii-only:%s:%s" % (f.name, cal.name), ok, f.loc(span_line(t["s"])),
+                     "byte tested with %s (%s)" % (cal.name, "ASCII-only" if ok else "Unicode-aware predicate applied to a single byte cast to char: bytes 0x80-0xFF of a multi-byte character can be taken for separators, spans then split a character and the accessors fail on valid UTF-8"))
+            # switches / comparisons against constants
+            for bi in f.normal_blocks():
+                tm = f.blocks[bi]["term"]
+                if tm["k"] == "switch":
+                    d = pv.operand(tm["d"])
+                    if from_byte(d) and d[0] in ("cast", "call", "local", "phi", "index"):
+                        big = [v for v in tm["vals"] if v > 127]
+                        n += 1
+                        if big:
+                            r.ob("ascii-only:%s:switch" % f.name, False, f.loc(span_line(tm["s"])), "byte compared with non-ASCII constants %s" % big)
+            for bi, si, st in f.assigns():
+                r_ = st["r"]
+                if r_["k"] == "bin" and r_["op"] in ("Eq", "Ne", "Lt", "Le", "Gt", "Ge"):
+                    a, b = pv.operand(r_["a"]), pv.operand(r_["b"])
+                    for x, y in ((a, b), (b, a)):
+                        if from_byte(x) and y[0] == "const":
+                            n += 1
+                            v = ord(y[1]) if isinstance(y[1], str) and len(y[1]) == 1 else y[1]
+                            if isinstance(v, int) and not isinstance(v, bool) and v > 127:
+                                r.ob("ascii-only:%s:compare" % f.name, False, f.loc(span_line(st["s"])), "byte compared with non-ASCII constant %r" % (y[1],))
+        r.ob("ascii-only:decisions", n >= 40, "", "%d decisions on input bytes examined" % n)
+    ctx.run_rule("R16.7", "decisions on input bytes are ASCII-only (spans never split a character)", body, floor=4)
+
+
 def run(ctx):
+    r16_7(ctx)
     r16_1(ctx)
     r16_2(ctx)
     r16_3(ctx)
